@@ -7,6 +7,7 @@
 package main
 
 import (
+	"path/filepath"
 	"bufio"
 	"encoding/hex"
 	"encoding/json"
@@ -239,6 +240,7 @@ func main() {
 	wd := flag.Duration("watchdog", 2*time.Second, "per-session watchdog")
 	noShrink := flag.Bool("noshrink", false, "do not shrink findings")
 	replay := flag.String("replay", "", "re-run the case of a finding/replay file instead of generating")
+	corpus := flag.String("corpus", "", "directory of replay files (minimised past failures) whose cases run first")
 	flag.Parse()
 	watchdog = *wd
 	p := props[*id]
@@ -267,6 +269,23 @@ func main() {
 		json.Unmarshal(b, &f)
 		cases = []Case{f.Case}
 	} else {
+		// the committed corpus of past failures runs first, on every seed
+		if *corpus != "" {
+			if ents, err := os.ReadDir(*corpus); err == nil {
+				for _, e := range ents {
+					if !strings.HasSuffix(e.Name(), ".json") {
+						continue
+					}
+					if b, err := os.ReadFile(filepath.Join(*corpus, e.Name())); err == nil {
+						var f Finding
+						if json.Unmarshal(b, &f) == nil && len(f.Case.Specs) > 0 {
+							f.Case.Class = "corpus/" + f.Case.Class
+							cases = append(cases, f.Case)
+						}
+					}
+				}
+			}
+		}
 		rng := rand.New(rand.NewSource(*seed))
 		for i := 0; i < *n; i++ {
 			c := p.gen(rng)
